@@ -805,6 +805,19 @@ func c24(r *engine.Run) {
 		res.Outcomes["daemon:"+k] += v
 	}
 
+	// third exploration: addresses in unusual but accepted spellings - a port with a leading zero (the peer list keeps such a
+	// string as it was read from a peers file; it names the same listen address as the plain spelling) and port 0
+	saveA, saveL := c24Addrs, c24LAddrs
+	c24Addrs = []string{"1.1.1.1:06000", "1.1.1.1:6000", "2.2.2.2:0"}
+	c24LAddrs = []string{"", "1.1.1.1:6000", "1.1.1.1:06000", "1.1.1.1:6001", "2.2.2.2:0", "2.2.2.2:6000"}
+	spS := sp
+	spS.MaxDepth = r.Pick(4, 6)
+	resS := engine.BFS(spS)
+	c24Addrs, c24LAddrs = saveA, saveL
+	for k, v := range resS.Outcomes {
+		res.Outcomes["spelling:"+k] += v
+	}
+
 	// vacuity guards
 	need := []string{"pending:ok", "pending:" + model.RExists, "connected:ok", "connected:" + model.RAlreadyConnected,
 		"connected:" + model.RAlreadyIntroduced, "introduced:ok", "introduced:" + model.RNotExist, "introduced:" + model.RStateNotConnected,
@@ -831,6 +844,7 @@ func c24(r *engine.Run) {
 	cov := res.Coverage("every event of the alphabet (3 pending, 3 connected, up to 81 introduced, up to 9 remove) is applied to the real daemon.Connections in every distinct state; states are replayed from a fresh NewConnections(); maps + error + getters compared with the reference model after every event")
 	cov["through_daemon_handlers"] = map[string]interface{}{"what": "same events, ConnectEvent (solicited / unsolicited) and DisconnectEvent delivered through Daemon.onConnectEvent / onDisconnectEvent of a Daemon with a real offline gnet pool; maps and getters compared with the model after every event",
 		"states": resD.States, "transitions": resD.Transitions, "max_depth": spD.MaxDepth, "exhaustive": resD.Exhaustive}
+	cov["unusual_address_spellings"] = map[string]interface{}{"addresses": []string{"1.1.1.1:06000", "1.1.1.1:6000", "2.2.2.2:0"}, "states": resS.States, "transitions": resS.Transitions, "max_depth": spS.MaxDepth}
 	cov["max_depth"] = sp.MaxDepth
 	cov["events_per_state_max"] = 96
 	cov["transitions_removing_last_connection"] = x.emptySeen
